@@ -16,7 +16,7 @@ type st = {
 let empty_root : Spec.bucket = (BinNums.N0, [])
 
 let run mode file =
-  let spec = (mode = "c04" || mode = "c08") in
+  let spec = (mode = "c04" || mode = "c08" || mode = "c14") in
   let acct = (mode = "c07" || mode = "c08") in
   let meta_written = ref false and fail_after_meta = ref false and fail_kind = ref "" in
   let d5 = ref false and unmapped = ref false in
@@ -151,6 +151,37 @@ let run mode file =
        | ["check"; r] when spec && tx_root r = None -> expect res_s "notx" "check"
        | ["check"; _] -> bump "check";
          if mode <> "c12" then (match res with "ok" :: "0" :: _ -> () | "ok" :: n :: first :: _ -> propfail "tx_check_clean" (n ^ " problems, first: " ^ first) | ["notx"] -> () | _ -> mismatch "check" res_s "ok 0")
+       | ["backupdone"; r] -> bump "backup";
+         (match res with
+          | "ok" :: fields ->
+            let kv = kv_of fields in
+            flag "backup";
+            if get kv "n" <> get kv "size" then propfail "backup_size" (Printf.sprintf "%s bytes written, Tx.Size() = %s" (get kv "n") (get kv "size"));
+            (match tx_root r with
+             | Some snap ->
+               let want = digest_or_text (dump_root snap) in
+               if get kv "dump" <> want then propfail "backup_content" (Printf.sprintf "copy=%s snapshot=%s" (cut (get kv "dump")) (cut want));
+               if snap != s.committed && digest_or_text (dump_root s.committed) <> want then flag "backup-of-old-snapshot"
+             | None -> mismatch "backup" "reader unknown to the model" "");
+            if get kv "check" <> "0" then propfail "backup_check_clean" (get kv "check");
+            let (rd, len) = load_rd (get kv "img") in
+            let psn = n_of_int (int_of_string (get kv "ps")) in
+            if string_of_int len <> get kv "n" then propfail "backup_size" "file length differs from the byte count";
+            let v0 = Layout.meta_valid rd psn BinNums.N0 and v1 = Layout.meta_valid rd psn (n_of_int 1) in
+            if not (v0 && v1) then propfail "backup_metas_valid" "";
+            let t0 = (Layout.rd_meta rd psn BinNums.N0).Layout.m_txid and t1 = (Layout.rd_meta rd psn (n_of_int 1)).Layout.m_txid in
+            if int_of_n t1 <> int_of_n t0 - 1 then mismatch "backup_meta1_txid" (string_of_n t1) (string_of_int (int_of_n t0 - 1));
+            (match Layout.dec_db rd psn (nat_of_int 200) with
+             | None -> propfail "backup_decodes" ""
+             | Some v ->
+               if int_of_n v.Layout.v_meta.Layout.m_txid <> int_of_n t0 then propfail "backup_meta0_wins" "";
+               if len <> int_of_n v.Layout.v_meta.Layout.m_mark * int_of_string (get kv "ps") then propfail "backup_size" "length is not mark * pageSize";
+               if digest_or_text (dump_root v.Layout.v_root) <> get kv "dump" then propfail "backup_decoded_content" "";
+               if not (v.Layout.v_order && v.Layout.v_bounds) then propfail "backup_order_bounds" "";
+               (match v.Layout.v_free with
+                | Some free -> if not (Layout.accounted v free) then propfail "backup_accounting" (Printf.sprintf "mark=%s" (string_of_n v.Layout.v_meta.Layout.m_mark))
+                | None -> ()))
+          | _ -> mismatch "backup" res_s "ok")
        | ["bstats"; _] -> bump "bstats";
          if acct then (match res with
            | "ok" :: fields ->
